@@ -255,7 +255,7 @@ func runAll(name string, comp Component, hs [][]string, outDir string) {
 			o := results[i].out[j]
 			w.WriteString(o)
 			w.WriteByte('\n')
-			s := sha256.Sum256([]byte(kind + "|" + o))
+			s := sha256.Sum256([]byte(l + "|" + o))
 			var k8 [8]byte
 			copy(k8[:], s[:8])
 			distinctOut[k8] = struct{}{}
